@@ -31,7 +31,7 @@ func init() {
 		"tables (tied to FDO 1.1 §3.6.5 by a Lean table theorem): valid tuples must complete both TO2 runs with every tunnel "+
 		"message a COSE object of the requested cipher and the requested suite in HelloDevice, invalid ones must end in an error at "+
 		"the device and a 255 from the owner; quick = a covering sample (every kind×encoding, every suite, every cipher, both "+
-		"reuse settings, both paths, and every invalid suite per kind), thorough = the full product (exhaustive); distinct = tuples", c09)
+		"reuse settings, both paths, and every invalid suite per kind), thorough = the full product (exhaustive); per key kind and encoding an onboarding with Handler.MaxContentLength just above the largest request; distinct = tuples", c09)
 }
 
 var allSuites = []kex.Suite{kex.ECDH256Suite, kex.ECDH384Suite, kex.DHKEXid14Suite, kex.DHKEXid15Suite, kex.ASYMKEX2048Suite, kex.ASYMKEX3072Suite}
